@@ -373,6 +373,15 @@ inline void malformedChecks(vh::Ctx& c, vh::Rng& r, long idx) {
     std::string path = writeFile("bad" + std::to_string(idx) + ext, content);
     PolygonalMesh mesh;
     bool threw = false; std::string msg;
+    auto W0 = [&](const std::string& why) { return Json::obj().set("format", FMT[fmt]).set("malformation", MAL[mal]).set("why", why).set("file_head", content.substr(0, 300)); };
+    // hostile input: load it in a child process first, so that a memory error is observed without losing the worker
+    int prc = forkProbe([&] { PolygonalMesh t; try { t.loadFile(path); std::string w; if (walkLoaded(t, w) && t.getNumFaces() > 0) { try { ContactGeometry::TriangleMesh tm(t); } catch (const std::exception&) {} } } catch (const std::exception&) {} });
+    if (prc != 0) {
+        removeTmp(path);
+        c.cover("malformed:" + cell + ":crashed");
+        c.viol("memory-unsafe:" + cell + ":loadFile", W0("loading the file crashed the probe process (status " + std::to_string(prc) + ")"));
+        return;
+    }
     try { mesh.loadFile(path); } catch (const std::exception& e) { threw = true; msg = e.what(); }
     removeTmp(path);
     c.cover("malformed:" + cell + (threw ? ":rejected" : ":accepted"));
